@@ -395,6 +395,9 @@ func (in *LinkInst) Apply(call *tla.Value) any {
 }
 
 func (in *LinkInst) sig(call, tr *tla.Value, what string) string {
+	if call == nil || tr == nil {
+		return fmt.Sprintf("%s rebuild - %s", in.cfg.AdapterName, what)
+	}
 	return fmt.Sprintf("%s %s %s %s", in.cfg.AdapterName, call.F("op").S, tr.F("b").S, what)
 }
 
